@@ -390,6 +390,15 @@ impl Client {
         }
     }
 
+    /// Internal counters of the connection, if active (verification builds only).
+    #[cfg(feature = "uflow_verif")]
+    pub fn verif_stats(&self) -> Option<crate::verif::VerifStats> {
+        match self.state {
+            State::Active(ref state) => Some(state.half_connection.verif_stats()),
+            _ => None,
+        }
+    }
+
     fn now_ms(&self) -> u64 {
         let now = time::Instant::now();
         (now - self.time_base).as_millis() as u64
